@@ -220,9 +220,22 @@ pub fn family(cfg: &Cfg) -> Vec<Item> {
     for e in al::e1(if cfg.quick() { 1 } else { 2 }) {
         items.push(Item::Ast(e));
     }
+    if cfg.quick() {
+        // every pair of day-selector kinds with two time values and two modifiers
+        let ts = al::times();
+        let ms = al::modifiers();
+        for ds in al::day_selectors(2) {
+            let kinds = [!ds.year.is_empty(), !ds.monthday.is_empty(), !ds.week.is_empty(), !ds.weekday.is_empty()].iter().filter(|x| **x).count();
+            if kinds == 2 {
+                for (t, m) in [(0usize, 0usize), (3, 0), (1, 1), (6, 2)] {
+                    items.push(Item::Ast(expr(vec![al::mk_rule(&ds, &ts[t], &ms[m])])));
+                }
+            }
+        }
+    }
     let r2 = al::r2();
     let n2 = al::e2_count();
-    let stride = if cfg.quick() { 97 } else { 1 };
+    let stride = if cfg.quick() { 31 } else { 1 };
     let mut i = 0;
     while i < n2 {
         items.push(Item::Ast(al::e2_at(&r2, i)));
@@ -230,7 +243,7 @@ pub fn family(cfg: &Cfg) -> Vec<Item> {
     }
     let r3 = al::r3();
     let n3 = al::e3_count();
-    let stride3 = if cfg.quick() { 389 } else { 7 };
+    let stride3 = if cfg.quick() { 131 } else { 7 };
     let mut i = 0;
     while i < n3 {
         items.push(Item::Ast(al::e3_at(&r3, i)));
